@@ -181,6 +181,14 @@ func runC12(res *lib.Result, tier string, seed int64, args []string) error {
 		if err != nil {
 			return err
 		}
+		if i%3 == 0 {
+			d4 := lib.ScratchDir(fmt.Sprintf("c12t%d", i))
+			err = c12Multi(res, d4, genTwoDefWorkspace(r.Fork(78)), "twodef", i)
+			os.RemoveAll(d4)
+			if err != nil {
+				return err
+			}
+		}
 		d2 := lib.ScratchDir(fmt.Sprintf("c12a%d", i))
 		err = c12Multi(res, d2, genAnnotWorkspace(r), "annot", i)
 		os.RemoveAll(d2)
